@@ -18,7 +18,7 @@ RULE = ("every Command subclass with every constructor/attribute value in its do
         "GetCapabilities x 2 pages, ToggleDisplay x beep, energy, humidity, GetProperties over all 4096 subsets of the 12 "
         "property ids in several orders, SetProperties over every non-empty subset of the 9 encodable ids with generated "
         "values, SetState over C10's domain), one run of 70 000 (quick) / 200 000 (thorough) commands in a single process, sequences of 300..700 mixed commands (constructed one by one or all constructed before the first is emitted), and every public AirConditioner operation "
-        "against the model device under generated capability profiles, optionally with some commands left unanswered (the ids seen on the wire must still chain), or with two devices of the same process operated concurrently (the commands of both, in wire order, must chain). A third of the device histories run with logging configured as in a real application (WARNING or DEBUG level, records formatted). Command objects may also be constructed first and emitted in any order, and the same object more than once (every emission is a command). Oracle: strict independent frame parser (0xAA, length "
+        "against the model device under generated capability profiles (the unit protecting its own response bodies with CRC-8 or with the additive check), optionally with some commands left unanswered (the ids seen on the wire must still chain), or with two devices of the same process operated concurrently (the commands of both, in wire order, must chain). A third of the device histories run with logging configured as in a real application (WARNING or DEBUG level, records formatted). Command objects may also be constructed first and emitted in any order, and the same object more than once (every emission is a command). Oracle: strict independent frame parser (0xAA, length "
         "byte == len-1, appliance 0xAC, frame type 0x02 for the two write commands else 0x03, body = [documented command id ... "
         "message id, bitwise CRC-8], two's complement checksum), the model's conformance parser accepts the body, message ids "
         "advance by one modulo 256. Non-trivial: variable-length property commands, a sequence that wraps the id, or a device "
@@ -171,6 +171,10 @@ def check_device(case: dict):
     async def main(loop):
         m = M.ModelAC()
         prof = case["profile"]
+        if prof.get("check") == "sum":
+            # a unit that protects its response bodies with the additive check instead of CRC-8 (both exist in the field); what
+            # the library *sends* must keep its CRC-8 whatever the unit answers with
+            m.check_style = "sum"
         recs = []
         if prof.get("energy"):
             recs.append(M.cap_record(0x0216, b"\x02"))
@@ -402,7 +406,7 @@ def run(ctx) -> None:
                 for twin in (1, 1.7):
                     t += 1
                     if ctx.mine(t):
-                        case = {"op": "device", "profile": {"energy": energy, "humidity": humidity, "props": props, "split": 0}, "state": dict(TWIN_STATE),
+                        case = {"op": "device", "profile": {"energy": energy, "humidity": humidity, "props": props, "split": 0, "check": ["crc", "sum"][t % 2]}, "state": dict(TWIN_STATE),
                                 "ops": ["refresh", "set", "apply", "refresh", "toggle", "refresh"], "twin": twin}
                         ctx.check(case, lambda c: _run_one(ctx, c))
     ctx.sweep("two devices concurrently x capability profiles", t, True)
@@ -413,7 +417,7 @@ def run(ctx) -> None:
             for ops in (["refresh", "refresh", "refresh"], ["refresh", "apply", "refresh"], ["caps", "refresh", "toggle", "refresh"], ["apply", "clean", "refresh"]):
                 u += 1
                 if ctx.mine(u):
-                    case = {"op": "device", "profile": {"energy": u % 2 == 0, "humidity": u % 3 == 0, "props": [0x0009, 0x0039], "split": 0}, "state": dict(TWIN_STATE),
+                    case = {"op": "device", "profile": {"energy": u % 2 == 0, "humidity": u % 3 == 0, "props": [0x0009, 0x0039], "split": 0, "check": ["crc", "sum", "crc"][u % 3]}, "state": dict(TWIN_STATE),
                             "ops": ops, "unanswered": unanswered, "logging": level}
                     ctx.check(case, lambda c: _run_one(ctx, c))
     ctx.sweep("unanswered commands x logging level x operation lists", u, True)
@@ -429,7 +433,7 @@ def run(ctx) -> None:
                      st.lists(st.integers(0, len(sp) - 1), min_size=2, max_size=3 * len(sp)).map(lambda em: {"specs": sp, "emit": em}))))
     ctx.hyp("set_state+short sequences", cases, lambda c: _run_one(ctx, c), ctx.n(3000, 320000))
 
-    profile = st.fixed_dictionaries({"energy": st.booleans(), "humidity": st.booleans(),
+    profile = st.fixed_dictionaries({"energy": st.booleans(), "humidity": st.booleans(), "check": st.sampled_from(["crc", "crc", "sum"]),
                                      "props": st.lists(st.sampled_from([0x0009, 0x000A, 0x0039, 0x0048, 0x0043, 0x0042, 0x0018, 0x00E3]), unique=True, max_size=8),
                                      "split": st.integers(0, 3)})
     dev_cases = st.fixed_dictionaries({"op": st.just("device"), "profile": profile, "state": gens.settable_states(),
